@@ -230,3 +230,192 @@ Example C07_generated_2D_c_a_runs :
                       (x2m [2; 1] 0) (x2m [2; 1] 1) [] [] [repeat CNone 8]
   = Ok [[CQ (298 # 96); CQ (218 # 96); CQ 96; CSqrt (240 # 96); CSqrt (72 # 96); CNone; CQ 31; CQ 96]].
 Proof. vm_compute. reflexivity. Qed.
+
+(* ====================================================================================
+   Route T for the pure-python engine and the glue.  Gen/refine.v is REGENERATED from the
+   current source of trackpy/refine/center_of_mass.py by tools/py2coq_refine.py on every check
+   (Python ast -> Coq, statement by statement, fail-closed; vocabulary Model/PyRefine.v):
+     py_safe_center_of_mass / py_refine / py_refine_com_arr / py_refine_com
+   are _safe_center_of_mass / _refine / refine_com_arr / refine_com.  Arrays are a shape with a
+   total index function (image[rect] = the window at the slice starts, mask * window pointwise,
+   .sum() / .max() over the box), 1-d arrays are lists with the elementwise operators written
+   out, floats are exact rationals, the per-feature float64 arrays (final_coords, mass, Rg,
+   signal, raw_mass) are rows of cells filled by X[feat] = v and read back by
+   np.column_stack, `for feat, coord in enumerate(coords)` recurses on the list of rows,
+   `for iteration in range(max_iterations)` with its break on the iteration budget; raise is
+   an explicit outcome; ecc is sliced out (its column stays the unwritten np.empty cell).
+   py_refine_com_arr calls py_refine and the four GENERATED numba kernels of (5)-(8).
+
+   ref_row out (Model/COMRefine.v) is the result row of a feature whose model output is out:
+   position, mass [, sqrt size^2 column(s), ecc cell, signal, raw_mass]. *)
+From Coq Require Import String.
+Import List. Import ListNotations.
+From TP Require Import Model.PyRefine Gen.refine Model.COMRefine Proofs.COMRefine.
+
+(* (10) _refine, called with max_iterations >= 1 (refine_com_arr sees to that) on an integer coords
+   array whose rows have one entry per radius: the returned array has, for every feature in
+   order, the row of the reference model ref_run of (1)-(4) started at that row of coords --
+   every rational identical.  No hypothesis on the images, the threshold or the flags. *)
+Theorem C07_generated_refine_is_reference :
+  forall raw_image image radius coords max_iterations thresh characterize walkthrough,
+  1 <= max_iterations -> length (a_shape image) = length radius ->
+  Forall (fun c => length c = length radius) (m_rows coords) ->
+  py_refine raw_image image radius coords max_iterations thresh characterize walkthrough =
+  map (fun start => ref_row (ref_run (a_at image) (a_at raw_image) radius (a_shape image) thresh (binary_mask radius)
+                                     (Z.to_nat max_iterations) characterize start)) (m_rows coords).
+Proof. exact gen_refine_is_model. Qed.
+Print Assumptions C07_generated_refine_is_reference.
+
+(* (11) refine_com_arr with engine='python' (or 'auto' where numba is absent or the image is not 2-D /
+   3-D), radius a tuple with one entry per image axis, coords a float array with one column per
+   axis: it returns the rows of refine_python (the model of (1)-(4), max_iterations raised to >= 1)
+   started at np.round(coords).astype(int), one row per feature, in order. *)
+Theorem C07_generated_refine_com_arr_python :
+  forall NUMBA_AVAILABLE raw_image image radius coords max_iterations engine thresh characterize walkthrough,
+  mat_wf coords -> a_ndim raw_image = m_ncols coords -> a_ndim image = a_ndim raw_image ->
+  Z.of_nat (length radius) = a_ndim image ->
+  (engine = "python"%string \/
+   (engine = "auto"%string /\ NUMBA_AVAILABLE && ((a_ndim image =? 2) || (a_ndim image =? 3)) = false)) ->
+  py_refine_com_arr NUMBA_AVAILABLE raw_image image (RTuple radius) coords max_iterations engine thresh characterize walkthrough =
+  Ret (refine_rows (a_at image) (a_at raw_image) radius (a_shape image) thresh max_iterations characterize
+                   (m_rows (mat_round_int coords))).
+Proof. exact gen_refine_com_arr_python. Qed.
+Print Assumptions C07_generated_refine_com_arr_python.
+
+(* (12) the headline clause for the generated python engine: for a feature whose (rounded) start window
+   lies inside the image and whose visited windows are all bright, the row refine_com_arr returns
+   is the row of an output that is self-consistent in the sense of (2): position = brightness
+   centroid of the very neighbourhood (inside the image, the whole ellipse) on which mass, size,
+   signal and raw_mass were measured. *)
+Theorem C07_generated_python_self_consistent :
+  forall NUMBA_AVAILABLE raw_image image radius coords max_iterations engine thresh characterize walkthrough k start,
+  mat_wf coords -> a_ndim raw_image = m_ncols coords -> a_ndim image = a_ndim raw_image ->
+  Z.of_nat (length radius) = a_ndim image ->
+  (engine = "python"%string \/
+   (engine = "auto"%string /\ NUMBA_AVAILABLE && ((a_ndim image =? 2) || (a_ndim image =? 3)) = false)) ->
+  (2 <= length radius)%nat -> Forall (fun r => 1 <= r) radius ->
+  nth_error (m_rows (mat_round_int coords)) k = Some start ->
+  window_inside radius (a_shape image) start ->
+  ref_nonzero (a_at image) radius (a_shape image) thresh (binary_mask radius) (pred (iters_of max_iterations)) start = true ->
+  exists rows out,
+    py_refine_com_arr NUMBA_AVAILABLE raw_image image (RTuple radius) coords max_iterations engine thresh characterize walkthrough = Ret rows /\
+    nth_error rows k = Some (ref_row out) /\
+    out = refine_python (a_at image) (a_at raw_image) radius (a_shape image) thresh max_iterations characterize start /\
+    row_is_consistent (a_at image) (a_at raw_image) radius (a_shape image) characterize out.
+Proof. exact generated_python_self_consistent. Qed.
+Print Assumptions C07_generated_python_self_consistent.
+
+(* (13) refine_com_arr with engine='numba' (or 'auto' with numba present), walkthrough off, 2-D image:
+   the dispatch picks the kernel by characterize / radius[0] == radius[1] and hands it the mask
+   offset columns, size weights, shape and results array for which (5)-(7) hold, so the call is:
+   for every feature in turn one run of the kernel model refine_numba from the rounded start,
+   writing its cells into np.empty((N, 3 | 7 | 8)); a division by zero in any feature ends the call
+   with ZeroDivisionError.  (img2 (as_nested2 image) is the image read with two subscripts.) *)
+Theorem C07_generated_refine_com_arr_numba_2D :
+  forall NUMBA_AVAILABLE raw_image image rY rX coords max_iterations engine thresh characterize,
+  a_ndim raw_image = m_ncols coords -> a_ndim image = 2 ->
+  (engine = "numba"%string \/ (engine = "auto"%string /\ NUMBA_AVAILABLE = true)) ->
+  let radius := [rY; rX] in
+  let rows := m_rows (mat_round_int coords) in
+  let run := refine_numba (img2 (as_nested2 image)) (img2 (as_nested2 raw_image)) radius
+                          [zget (a_shape image) 0; zget (a_shape image) 1] thresh max_iterations characterize in
+  let start := fun feat => [get2 rows feat 0; get2 rows feat 1] in
+  py_refine_com_arr NUMBA_AVAILABLE raw_image image (RTuple radius) coords max_iterations engine thresh characterize false =
+  if negb characterize then numba_rows run start cells_2D (m_nrows coords) 3
+  else if rY =? rX then numba_rows run start cells_2D_c (m_nrows coords) 7
+  else numba_rows run start cells_2D_c_a (m_nrows coords) 8.
+Proof. exact gen_refine_com_arr_numba_2D. Qed.
+Print Assumptions C07_generated_refine_com_arr_numba_2D.
+
+(* (14) the same for a 3-D image: one kernel, 4 / 8 / 10 result columns *)
+Theorem C07_generated_refine_com_arr_numba_3D :
+  forall NUMBA_AVAILABLE raw_image image rZ rY rX coords max_iterations engine thresh characterize,
+  a_ndim raw_image = m_ncols coords -> a_ndim image = 3 ->
+  (engine = "numba"%string \/ (engine = "auto"%string /\ NUMBA_AVAILABLE = true)) ->
+  let radius := [rZ; rY; rX] in
+  let rows := m_rows (mat_round_int coords) in
+  let run := refine_numba (img3 (as_nested3 image)) (img3 (as_nested3 raw_image)) radius
+                          [zget (a_shape image) 0; zget (a_shape image) 1; zget (a_shape image) 2] thresh max_iterations characterize in
+  let start := fun feat => [get2 rows feat 0; get2 rows feat 1; get2 rows feat 2] in
+  py_refine_com_arr NUMBA_AVAILABLE raw_image image (RTuple radius) coords max_iterations engine thresh characterize false =
+  numba_rows run start (cells_3D characterize (isotropic radius)) (m_nrows coords)
+             (if characterize then if isotropic radius then 8 else 10 else 4).
+Proof. exact gen_refine_com_arr_numba_3D. Qed.
+Print Assumptions C07_generated_refine_com_arr_numba_3D.
+
+(* (15) what refine_com_arr refuses: coords with another number of columns than the raw image has axes;
+   a radius tuple of the wrong length; an unknown engine name *)
+Theorem C07_generated_refine_com_arr_refuses :
+  forall NUMBA_AVAILABLE raw_image image radius coords max_iterations engine thresh characterize walkthrough,
+  (a_ndim raw_image <> m_ncols coords ->
+   py_refine_com_arr NUMBA_AVAILABLE raw_image image radius coords max_iterations engine thresh characterize walkthrough =
+   Raise (ValueError "The image has a different number of dimensions than the coordinate array.")) /\
+  (a_ndim raw_image = m_ncols coords -> forall l, radius = RTuple l -> Z.of_nat (length l) <> a_ndim image ->
+   py_refine_com_arr NUMBA_AVAILABLE raw_image image radius coords max_iterations engine thresh characterize walkthrough =
+   Raise (ValueError "List length should have same length as image dimensions.")) /\
+  (a_ndim raw_image = m_ncols coords -> forall l, radius = RTuple l -> Z.of_nat (length l) = a_ndim image ->
+   engine <> "auto"%string -> engine <> "python"%string -> engine <> "numba"%string ->
+   py_refine_com_arr NUMBA_AVAILABLE raw_image image radius coords max_iterations engine thresh characterize walkthrough =
+   Raise (ValueError "Available engines are 'python' and 'numba'")).
+Proof. exact gen_refine_com_arr_refuses. Qed.
+Print Assumptions C07_generated_refine_com_arr_refuses.
+
+(* (16) refine_com on a DataFrame: the position columns (given, or ['z','y','x'] / ['y','x'] by whether the
+   frame has a 'z' column) are taken as the float coords array, refine_com_arr does the work with
+   walkthrough off, and the result is a frame with the caller's index and the columns
+     pos ++ ['mass'] ++ (['size'] | ['size_' + p for p in default_pos_columns(ndim)]) ++ ['ecc','signal','raw_mass']
+   (the tail only with characterize; 'size' when all radii are equal); no rows: an empty frame with
+   these columns and no index.  (17): the same for a plain array (default position names, no index). *)
+Theorem C07_generated_refine_com_dataframe :
+  forall NUMBA_AVAILABLE raw_image image radius r f m max_iterations engine thresh characterize pos_columns,
+  validate_tuple radius (a_ndim image) = Ret r ->
+  let pos := match pos_columns with None => guess_pos_columns f | Some p => p end in
+  df_getitem_values f pos = Ret m ->
+  py_refine_com NUMBA_AVAILABLE raw_image image radius (CDataFrame f) max_iterations engine thresh characterize pos_columns =
+  frame_of (com_columns pos (a_ndim image) characterize (isotropic r)) (Some (df_index f)) (m_nrows m)
+           (py_refine_com_arr NUMBA_AVAILABLE raw_image image (RTuple r) m max_iterations engine thresh characterize false).
+Proof. exact gen_refine_com_dataframe. Qed.
+Print Assumptions C07_generated_refine_com_dataframe.
+
+Theorem C07_generated_refine_com_array :
+  forall NUMBA_AVAILABLE raw_image image radius r m max_iterations engine thresh characterize pos_columns,
+  validate_tuple radius (a_ndim image) = Ret r ->
+  let pos := match pos_columns with None => default_pos_columns (a_ndim image) | Some p => p end in
+  py_refine_com NUMBA_AVAILABLE raw_image image radius (CArray m) max_iterations engine thresh characterize pos_columns =
+  frame_of (com_columns pos (a_ndim image) characterize (isotropic r)) None (m_nrows m)
+           (py_refine_com_arr NUMBA_AVAILABLE raw_image image (RTuple r) m max_iterations engine thresh characterize false).
+Proof. exact gen_refine_com_array. Qed.
+Print Assumptions C07_generated_refine_com_array.
+
+(* (18) the keyword defaults (0.6 is the float64 nearest to 3/5) *)
+Theorem C07_generated_defaults :
+  py_refine_com_arr_default_max_iterations = 10 /\ py_refine_com_arr_default_engine = "auto"%string /\
+  py_refine_com_arr_default_shift_thresh = (5404319552844595 # 9007199254740992)%Q /\
+  py_refine_com_arr_default_characterize = true /\ py_refine_com_arr_default_walkthrough = false /\
+  py_refine_com_default_max_iterations = 10 /\ py_refine_com_default_engine = "auto"%string /\
+  py_refine_com_default_shift_thresh = py_refine_com_arr_default_shift_thresh /\
+  py_refine_com_default_characterize = true /\ py_refine_com_default_pos_columns = None.
+Proof. exact gen_defaults. Qed.
+Print Assumptions C07_generated_defaults.
+
+(* non-vacuity: the generated refine_com runs on the 7x9 image of the examples above, through a DataFrame
+   with columns x, y (positions 2.3, 2.6 round to the start pixel [3; 2]) and index label 5: engine
+   'python', limit 2 -> the row of mass 529 of C07_walk_moves_and_limit_binds, size from the isotropic
+   branch, under the columns y, x, mass, size, ecc, signal, raw_mass *)
+Definition ex_zarr : zarr := mkArr [7; 9] ex_img.
+Example C07_generated_refine_com_runs :
+  py_refine_com false ex_zarr ex_zarr (RScalar 2)
+                (CDataFrame (mkDF ["x"%string; "y"%string] [5] [[(23 # 10)%Q; (26 # 10)%Q]]))
+                2 "python"%string (3 # 5) true None
+  = Ret (mkFrame ["y"%string; "x"%string; "mass"%string; "size"%string; "ecc"%string; "signal"%string; "raw_mass"%string]
+                 (Some [5])
+                 [ref_row (refine_python ex_img ex_img [2; 2] [7; 9] (3 # 5) 2 true [3; 2])]) /\
+  hd CNone (ref_row (refine_python ex_img ex_img [2; 2] [7; 9] (3 # 5) 2 true [3; 2])) = CQ (1601 # 529) /\
+  length (ref_row (refine_python ex_img ex_img [2; 2] [7; 9] (3 # 5) 2 true [3; 2])) = 7%nat.
+Proof. vm_compute. repeat split; reflexivity. Qed.
+
+(* the numba engine of the generated refine_com_arr on the same case: the generated kernel of (6) runs *)
+Example C07_generated_refine_com_arr_numba_runs :
+  py_refine_com_arr false ex_zarr ex_zarr (RTuple [2; 2]) (mkMat 2 [[(26 # 10)%Q; (23 # 10)%Q]]) 2 "numba"%string (3 # 5) false false
+  = Ret [[CQ (1601 # 529); CQ (2003 # 529); CQ 529]].
+Proof. vm_compute. reflexivity. Qed.
